@@ -120,6 +120,14 @@ CLAIMED = {
          "matrix, exact solution, table split) and the library routine (KKT residuals).",
          "Lean kernel + three standard axioms; Eigen kernels external (certified per run); PARTIAL: csg_fmatch's assembly and block averaging not modelled.",
          "6/C06"),
+ "C08": ("Lean 4 proof about record-level codecs (rounding to k decimals / s significant digits over Q, unit factors regenerated from constants.h, frame "
+         "sequencing, count check, matrix/table text) + correspondence with the real writers and readers, judged clause by clause",
+         "roundDec_err / roundDec_idem / unit_factors_cancel / field_roundtrip_dec / frames_in_order / count_mismatch_rejected / matrix_shape / "
+         "table_flags_kept hold for all inputs; tied to the working tree by writing generated frame sequences with the gro, dump, xyz, pdb and DL_POLY "
+         "writers, reading them back with the matching readers and comparing every position, velocity, force, box component, frame count and name with "
+         "the codec model and with the printed precision; Table, imcio matrix and index files likewise.",
+         "Lean kernel + three standard axioms; printf/strtod layer modelled as exact rounding (correspondence only); three recorded findings (pdb unreadable, table error column, dump off-diagonal box).",
+         "6/C08"),
 }
 REASONS = {}
 
